@@ -2,7 +2,7 @@
 import re
 
 import vlib.mir as _M
-from vlib.mo import MO, Arm, Ev, FnCheck, allof, call, follows, never, only_via, origin, stmt
+from vlib.mo import MO, Arm, Ev, FnCheck, Result, allof, call, follows, never, only_via, only_via_call, origin, precedes, stmt
 from vlib.runner import KH, run_kani_group, run_mir_obligations
 
 LEVEL = "other"
@@ -83,6 +83,79 @@ MOS_BIN = [
                       frm=Arm(r"^discr\(arg\(_2: Option<&TenantContext>\)\)$", {"1"}, name="tenant is Some")),
              lambda F: FnCheck(F, ERL).reachable(call(r"Status::resource_exhausted", name="Status::resource_exhausted"))),
        functions=[("bin/kyrodb_server.rs", "enforce_rate_limit")], target="kyrodb_server"),
+]
+
+# O19.4: "checked on every RPC and per streamed item" -- the admission decision is worth nothing if a handler reaches the engine
+# without having asked for it, or asks once for a whole stream.
+RPC = lambda name: "<KyroDBServiceImpl as KyroDbService>::%s::{closure#0}::{closure#0}" % name
+ERL_CALL = call(r"= KyroDBServiceImpl::enforce_rate_limit\(", name="enforce_rate_limit()")
+ERL_OK = Arm(r"^discr\(try\(call KyroDBServiceImpl::enforce_rate_limit\)\)$", {"0"}, name="enforce_rate_limit()? -> Ok")
+ENGINE_ANY = call(r"= TieredEngine::\w+\(", name="any TieredEngine call")
+E_INSERT = call(r"= TieredEngine::insert\(", name="engine.insert")
+E_BULK = call(r"= TieredEngine::bulk_load_cold_tier\(", name="engine.bulk_load_cold_tier")
+STREAM_NEXT = call(r"async fn body of Streaming<.*>::message\(\)\} as .*Future>::poll\(", name="stream.message().await (next item)")
+DOC_PUSH = call(r"= Vec::<\(u64, Vec<f32>, HashMap<.*String, .*String>\)>::push\(", name="documents.push(item)")
+REQ_PUSH = call(r"= Vec::<(kyrodb_engine::proto::)?SearchRequest>::push\(", name="pending.push(req)")
+BATCH_CALL = call(r"= KyroDBServiceImpl::handle_search_requests_batch\(", name="handle_search_requests_batch(pending)")
+ERL_FIELD_RX = r"^discr\(.* as variant#\d+\)\.\d+: Result<\(\), (tonic::)?Status>\)\)$"
+ERL_FIELD_OK = Arm(ERL_FIELD_RX, {"!1"}, name="stored enforce_rate_limit() result is Ok")
+BS = "<KyroDBServiceImpl as KyroDbService>::bulk_search::{closure#0}::{closure#0}::{closure#0}"
+HSR = "KyroDBServiceImpl::handle_search_request::{closure#0}"
+
+
+def stored_result_is_rate_limit(F):
+    """In the spawned BulkSearch task the rate-limit result lives in a coroutine field; the arm used above is typed
+    (Result<(), Status>) rather than traced, so check that every such switch directly follows an enforce_rate_limit call
+    writing that field."""
+    fc = FnCheck(F, BS)
+    if fc.fn is None:
+        return fc.missing()
+    fn = fc.fn
+    sws = ERL_FIELD_OK.switches(fn)
+    if not sws:
+        return Result("inconclusive", "no Result<(), Status> coroutine-field switch in the BulkSearch task")
+    for b in sws:
+        preds = [p for p in fn.blocks.values() if not p.cleanup and any(t == b.idx for _l, t in p.succs)]
+        if not preds or not all(p.kind == "call" and re.search(r"= KyroDBServiceImpl::enforce_rate_limit\(", p.term or "") for p in preds):
+            return Result("violated", "bb%d switches on a stored Result<(), Status> that is not written by enforce_rate_limit() in the preceding block" % b.idx,
+                          sample={"fn": fc.name, "kind": "STRUCT", "switch": "bb%d" % b.idx})
+    return Result("holds", "%d stored-result switch(es), each directly after enforce_rate_limit()" % len(sws), sample={"fn": fc.name, "kind": "STRUCT", "switches": ["bb%d" % b.idx for b in sws]})
+
+
+def _every_request():
+    cs = []
+    for n in ("insert", "delete", "update_metadata", "query", "bulk_query", "batch_delete", "bulk_insert", "bulk_load_hnsw"):
+        cs.append(only_via_call(RPC(n), ENGINE_ANY, ERL_CALL, ERL_OK, why="the RPC reaches the engine without a rate-limit decision"))
+    cs.append(only_via_call(HSR, ENGINE_ANY, ERL_CALL, ERL_OK, why="search reaches the engine without a rate-limit decision"))
+    # Search goes through handle_search_request and touches the engine nowhere else
+    cs.append(lambda F: FnCheck(F, RPC("search")).reachable(call(r"= KyroDBServiceImpl::handle_search_request\(", name="handle_search_request()")))
+    cs.append(never(RPC("search"), ENGINE_ANY, need_witness_without=False))
+    return allof(*cs)
+
+
+def _per_item():
+    return allof(
+        # BulkInsert: between receiving an item and inserting it lies a successful rate-limit decision
+        only_via(RPC("bulk_insert"), E_INSERT, ERL_OK, frm=STREAM_NEXT),
+        # BulkLoadHnsw: every received item that is queued for loading was charged; every batch ingestion too
+        only_via(RPC("bulk_load_hnsw"), DOC_PUSH, ERL_OK, frm=STREAM_NEXT),
+        # (the ingestion of the last partial batch after end-of-stream needs no further decision: its items were charged on receipt)
+        # BulkSearch (spawned task): each queued request was charged since the previous one was queued, a refused
+        # one is never queued
+        lambda F: FnCheck(F, BS).reachable(REQ_PUSH),
+        precedes(BS, ERL_CALL, REQ_PUSH),
+        only_via(BS, REQ_PUSH, ERL_FIELD_OK),
+        only_via(BS, REQ_PUSH, ERL_FIELD_OK, frm=REQ_PUSH, strict=True),
+        lambda F: stored_result_is_rate_limit(F),
+        never(BS, ENGINE_ANY, need_witness_without=False),
+    )
+
+
+MOS_BIN += [
+    MO("O19.4/every_request", "every data RPC (Insert, Delete, UpdateMetadata, Query, BulkQuery, BatchDelete, BulkInsert, BulkLoadHnsw, Search via handle_search_request) reaches a TieredEngine call only through the Ok arm of enforce_rate_limit()?",
+       _every_request(), functions=[("bin/kyrodb_server.rs", n) for n in ("insert", "delete", "update_metadata", "query", "bulk_query", "batch_delete", "bulk_insert", "bulk_load_hnsw", "search", "handle_search_request")], target="kyrodb_server"),
+    MO("O19.4/per_item", "streamed RPCs are charged per item: BulkInsert inserts, BulkLoadHnsw queues and BulkSearch queues an item only after an enforce_rate_limit() decision taken since that item was received (and never on its Err arm)",
+       _per_item(), functions=[("bin/kyrodb_server.rs", n) for n in ("bulk_insert", "bulk_load_hnsw", "bulk_search")], target="kyrodb_server"),
 ]
 
 
